@@ -499,6 +499,10 @@ func (g *Gate) execute(id int, p *pendingRPC, f *Fault) (rpcResult, bool) {
 			g.parkRest(c)
 			return rpcResult{}, true
 		}
+		if f.Cancel != nil {
+			f.Cancel()
+			return rpcResult{nil, context.Canceled}, false
+		}
 		return rpcResult{nil, ErrDropped}, false
 	}
 	if executed {
@@ -514,6 +518,10 @@ func (g *Gate) execute(id int, p *pendingRPC, f *Fault) (rpcResult, bool) {
 			return rpcResult{}, true
 		}
 		if f != nil && f.Kind == DropAfter {
+			if f.Cancel != nil {
+				f.Cancel()
+				return rpcResult{nil, context.Canceled}, false
+			}
 			return rpcResult{nil, ErrDropped}, false
 		}
 	}
